@@ -52,6 +52,8 @@ type elObj struct {
 	lateAck           bool
 	polledClaim       bool // objects without Metrics: the flag as last polled
 	riseSeenInLock    *ClaimEvt
+	startCtxCancelled bool // the application cancelled the Start context during the current term
+	candDuringStart   bool // a transition out of CANDIDATE was recorded while a Start call was in flight
 }
 
 // Inst is one participant (InstanceID) of the plan.
@@ -74,6 +76,7 @@ type Inst struct {
 	nKind          map[string]int
 	healthPos      int
 	startedAt      time.Duration
+	startInvAt     time.Duration // invocation of the latest Start call
 	watchOK        bool
 	stopInvoked    int // stop calls invoked so far
 	nStarted       int // Start calls that succeeded so far
@@ -216,6 +219,7 @@ func (d *Driver) claimObserved(o *elObj, val, isL bool, tok, stack string, polle
 			}
 		}
 		if val {
+			o.startCtxCancelled = false
 			o.termToken = tok
 			o.termRiseStep = d.step
 			o.terms++
@@ -282,7 +286,13 @@ func (m *obsMetrics) IncTransitions(l prometheus.Labels) {
 	d.checkTransition(o, from, to)
 	o.lastTo = to
 	o.nTrans++
-	o.afterStart = false
+	if from == "CANDIDATE" {
+		// the first transition of the run that a Start began
+		o.afterStart = false
+		if o.startInFlight > 0 {
+			o.candDuringStart = true
+		}
+	}
 }
 func (m *obsMetrics) IncFailures(prometheus.Labels)                             {}
 func (m *obsMetrics) IncAcquireAttempts(prometheus.Labels)                      {}
@@ -611,6 +621,9 @@ func (d *Driver) apiCall(in *Inst, o *elObj, a *Action, ev *ApiEvt) {
 		// recorded transition may come before Start has returned to its caller
 		d.mu.Lock()
 		transBefore := o.nTrans
+		_ = transBefore
+		o.candDuringStart = false
+		in.startInvAt = d.now()
 		if o.startInFlight == 0 {
 			o.stopsDuringStart, o.startOKPending = 0, false
 		}
@@ -622,8 +635,10 @@ func (d *Driver) apiCall(in *Inst, o *elObj, a *Action, ev *ApiEvt) {
 		err = o.el.Start(ctx)
 		d.mu.Lock()
 		o.startInFlight--
-		if err == nil && o.nTrans == transBefore {
-			o.afterStart = true // the run's first transition is still to come
+		if err == nil && !o.candDuringStart {
+			// the run's first transition is still to come (transitions recorded meanwhile by
+			// goroutines of the previous run do not count)
+			o.afterStart = true
 		}
 		if err == nil {
 			o.cancelStart = cancel
@@ -675,6 +690,9 @@ func (d *Driver) apiCall(in *Inst, o *elObj, a *Action, ev *ApiEvt) {
 		cancel()
 	case ACancelStart:
 		if o.cancelStart != nil {
+			d.mu.Lock()
+			o.startCtxCancelled = true
+			d.mu.Unlock()
 			o.cancelStart()
 		}
 		// the instance's background activity ends: it is no longer a running candidate
